@@ -863,6 +863,83 @@ func errorBehindFlushedAnswers(id string, seed uint64) runner.Result {
 	return res
 }
 
+// largeErrorText: the handler's error text is as long as a large message (around the 4 MiB the reader
+// accepts by default, and beyond it on a client whose reader limit was raised): the client gets
+// exactly that text and code, or, where the client's reader cannot take a packet of that size, the
+// call fails some other way; it never gets a different text under the right code.
+func largeErrorText(id string, seed uint64) runner.Result {
+	r := &payload.SplitMix{S: seed}
+	cfg := prog.GenConfig(r, false)
+	if cfg.Net.Cap == 0 {
+		cfg.Net.Cap = -1
+	}
+	raised := r.Intn(3) != 0
+	cfg.Client.Reader.MaximumBufferSize = 0
+	if raised {
+		cfg.Client.Reader.MaximumBufferSize = 16 << 20
+	}
+	n := payload.Pick(r, []int{1 << 10, 70000, 4<<20 - 9, 4<<20 - 8, 4<<20 - 7, 4<<20 + 1, 5<<20 + 123})
+	code := payload.Pick(r, []uint64{1, 7, 1<<64 - 2})
+	text := strings.Repeat("abcdefghij", n/10+1)[:n]
+	handler := rig.HandlerFunc(func(stream drpc.Stream, rpc string) error {
+		var m Msg
+		if err := stream.MsgRecv(&m, enc{}); err != nil {
+			return err
+		}
+		if rpc == "/probe" {
+			return stream.MsgSend(&Msg{B: []byte("probe-response")}, enc{})
+		}
+		return drpcerr.WithCode(errors.New(text), code)
+	})
+	rg := rig.New(rig.Config{Net: cfg.Net, Client: cfg.Client, Server: cfg.Server}, handler)
+	defer rg.Teardown()
+	desc := fmt.Sprintf("%s | large-error-text: handler fails with code %d and a text of %d bytes; client reader limit raised to 16 MiB: %v", cfg.Desc, code, n, raised)
+	var out Msg
+	op := rig.Go("call", func() (interface{}, error) {
+		return nil, rg.Conn.Invoke(context.Background(), "/rpc", enc{}, &Msg{B: []byte("x")}, &out)
+	})
+	if !op.Wait() {
+		return runner.Violation(id, "error-identity:large-error-text:call-never-returns", desc)
+	}
+	fits := n+8 <= 4<<20 || raised
+	var fails []string
+	switch {
+	case op.Err == nil:
+		fails = append(fails, "the handler failed but the call returned nil")
+	case drpcerr.Code(op.Err) == code && op.Err.Error() != text:
+		got := op.Err.Error()
+		fails = append(fails, fmt.Sprintf("the client got the handler's code with a text of %d bytes (first difference at byte %d), the handler's text has %d bytes", len(got), firstDiff(got, text), len(text)))
+	case fits && (op.Err.Error() != text || drpcerr.Code(op.Err) != code):
+		fails = append(fails, fmt.Sprintf("the error fits the client's reader but the client got code %d and %s", drpcerr.Code(op.Err), clipS(op.Err.Error())))
+	}
+	if len(fails) == 0 && fits && !rig.IsClosed(rg.Conn.Closed()) {
+		probe := rig.Go("probe", func() (interface{}, error) {
+			return nil, rg.Conn.Invoke(context.Background(), "/probe", enc{}, &Msg{B: []byte("probe")}, &out)
+		})
+		if !probe.Wait() || probe.Err != nil {
+			fails = append(fails, fmt.Sprintf("probe RPC after the call: returned=%v err=%v", probe.Returned(), probe.Err))
+		}
+	}
+	if len(fails) > 0 {
+		return runner.Violation(id, "error-identity:large-error-text", desc+"\n"+strings.Join(fails, "\n"))
+	}
+	res := runner.Hold(id, desc, fits)
+	res.Events = 2
+	return res
+}
+
+func firstDiff(a, b string) int {
+	for i := 0; i < len(a) && i < len(b); i++ {
+		if a[i] != b[i] {
+			return i
+		}
+	}
+	if len(a) < len(b) {
+		return len(a)
+	}
+	return len(b)
+}
+
 func gen(tier string, seed uint64) []runner.Scenario {
 	n := 250
 	if tier == "thorough" {
@@ -877,6 +954,10 @@ func gen(tier string, seed uint64) []runner.Scenario {
 		if i%25 == 0 {
 			id4 := fmt.Sprintf("shared-sentinel/%d", i)
 			out = append(out, runner.Scenario{ID: id4, Run: func() runner.Result { return sharedSentinel(id4, payload.Hash(seed, 0xC10C, uint64(i))) }})
+		}
+		if i%12 == 0 {
+			id6 := fmt.Sprintf("large-error-text/%d", i)
+			out = append(out, runner.Scenario{ID: id6, Run: func() runner.Result { return largeErrorText(id6, payload.Hash(seed, 0xC10E, uint64(i))) }})
 		}
 		if i%10 == 0 {
 			id5 := fmt.Sprintf("error-behind-flushed-answers/%d", i)
